@@ -373,3 +373,347 @@ theorem run_good : ∀ (sched : List (Env × Op)) (c : Conn), c.Inv → runPermi
       · exact hv2 o ho
 
 end Tw.Conn6
+
+/-! ## C02: no call hangs; in every non-idle state the send timer is armed -/
+namespace Tw.Conn6
+open Tw.Conn Tw.Time
+
+/-- the send timer is active in every state in which the connection has something to wait for -/
+def Armed (c : Conn) : Prop :=
+  match c.state with
+  | .connecting | .pending _ | .online _ _ => c.send.isActive = true
+  | _ => True
+
+/-- the call cannot hang, and if it returns it keeps the timer armed -/
+def Keeps (c : Conn) (r : Res) : Prop :=
+  NoHang r ∧ ∀ c' out, r = .ok (c', out) → Armed c → Armed c'
+
+theorem after_active (now d : Nat) : (Timeout.after now d).isActive = true := rfl
+
+theorem nohang_err {α : Type} {x : Except Fail α} {e : Fail} (h : NoHang x) (hx : x = .error e) : e ≠ .hang := by
+  intro he; subst he; exact h hx
+
+theorem keeps_error (c : Conn) {e : Fail} (h : e ≠ .hang) : Keeps c (.error e) :=
+  ⟨by unfold NoHang; intro he; injection he with he; exact h he, by intro _ _ h; cases h⟩
+
+theorem keeps_panic (c : Conn) (site : String) : Keeps c (.error (.panic site)) :=
+  keeps_error c (by simp)
+
+theorem keeps_ok_armed (c : Conn) {c1 : Conn} (out : Out) (h : Armed c1) : Keeps c (.ok (c1, out)) := by
+  refine ⟨by simp [NoHang], ?_⟩
+  intro c' out' he _
+  injection he with he; injection he with he _; rw [← he]; exact h
+
+theorem keeps_ok_of (c : Conn) {c1 : Conn} (out : Out) (h : Armed c → Armed c1) : Keeps c (.ok (c1, out)) := by
+  refine ⟨by simp [NoHang], ?_⟩
+  intro c' out' he ha
+  injection he with he; injection he with he _; rw [← he]; exact h ha
+
+theorem keeps_same (c : Conn) (out : Out) : Keeps c (.ok (c, out)) := keeps_ok_of c out id
+
+theorem emit_nohang (ps : List Packet) : NoHang (emit ps) := by
+  unfold NoHang emit; split <;> simp
+
+theorem sendControl_nohang (st : State) (ctl : Control) : NoHang (sendControl st ctl) := by
+  unfold sendControl controlPacket
+  cases st <;> simp only <;> first | exact emit_nohang _ | simp [NoHang]
+
+/-- `tick_action` arms the timer in every state that needs it -/
+theorem tickAction_keeps (env : Env) (c c0 : Conn) : Keeps c0 (tickAction env c) := by
+  obtain ⟨st, snd⟩ := c
+  cases st with
+  | unconnected => exact keeps_ok_armed _ _ (by simp [Armed])
+  | disconnected => exact keeps_ok_armed _ _ (by simp [Armed])
+  | connecting =>
+    simp only [tickAction]
+    cases hx : sendControl .connecting .connect with
+    | error e => exact keeps_error _ (nohang_err (sendControl_nohang _ _) hx)
+    | ok ps => exact keeps_ok_armed _ _ (by simp [Armed, after_active])
+  | pending t =>
+    simp only [tickAction]
+    cases hx : sendControl (.pending t) .connectAccept with
+    | error e => exact keeps_error _ (nohang_err (sendControl_nohang _ _) hx)
+    | ok ps => exact keeps_ok_armed _ _ (by simp [Armed, after_active])
+  | online t o =>
+    simp only [tickAction]
+    split
+    · cases hx : emit (o.flush.2.map (ofFlushed t)) with
+      | error e => exact keeps_error _ (nohang_err (emit_nohang _) hx)
+      | ok ps => exact keeps_ok_armed _ _ (by simp [Armed, after_active])
+    · cases hx : sendControl (.online t o) .keepAlive with
+      | error e => exact keeps_error _ (nohang_err (sendControl_nohang _ _) hx)
+      | ok ps => exact keeps_ok_armed _ _ (by simp [Armed, after_active])
+
+theorem connect_keeps (env : Env) (c : Conn) : Keeps c (connect env c) := by
+  obtain ⟨st, snd⟩ := c
+  cases st with
+  | unconnected => simp only [connect]; exact tickAction_keeps env _ _
+  | connecting => exact keeps_panic _ _
+  | pending t => exact keeps_panic _ _
+  | online t o => exact keeps_panic _ _
+  | disconnected => exact keeps_panic _ _
+
+theorem disconnect_keeps (env : Env) (c : Conn) (r : Bytes) : Keeps c (disconnect env c r) := by
+  obtain ⟨st, snd⟩ := c
+  have key : ∀ st' : State, Keeps ⟨st, snd⟩
+      (if r.any (· == 0) = true then .error (.panic "disconnect: reason must not contain NULs")
+       else match sendControl st' (.close r) with
+        | .error e => .error e
+        | .ok ps => .ok (⟨.disconnected, snd⟩, { sent := ps })) := by
+    intro st'
+    split
+    · exact keeps_panic _ _
+    · cases hx : sendControl st' (.close r) with
+      | error e => exact keeps_error _ (nohang_err (sendControl_nohang _ _) hx)
+      | ok ps => exact keeps_ok_armed _ _ (by simp [Armed])
+  cases st with
+  | disconnected => exact keeps_panic _ _
+  | unconnected => exact key _
+  | connecting => exact key _
+  | pending t => exact key _
+  | online t o => exact key _
+
+theorem flush_keeps (env : Env) (c : Conn) : Keeps c (flush env c) := by
+  obtain ⟨st, snd⟩ := c
+  cases st with
+  | online t o =>
+    simp only [flush]
+    cases hx : emit (o.flush.2.map (ofFlushed t)) with
+    | error e => exact keeps_error _ (nohang_err (emit_nohang _) hx)
+    | ok ps => exact keeps_ok_armed _ _ (by simp [Armed, after_active])
+  | unconnected => exact keeps_panic _ _
+  | connecting => exact keeps_panic _ _
+  | pending t => exact keeps_panic _ _
+  | disconnected => exact keeps_panic _ _
+
+theorem send_keeps (env : Env) (c : Conn) (d : Bytes) (v : Bool) : Keeps c (step env c (.send d v)) := by
+  obtain ⟨st, snd⟩ := c
+  cases st with
+  | online t o =>
+    simp only [step, send]
+    cases hr : o.send cfg env.now d v with
+    | error e => exact keeps_error _ (nohang_err (send_nohang _ _ _ _ _) hr)
+    | ok r =>
+      obtain ⟨o1, res, fl⟩ := r
+      simp only
+      cases hq : emit (fl.map (ofFlushed t)) with
+      | error e => exact keeps_error _ (nohang_err (emit_nohang _) hq)
+      | ok ps => exact keeps_ok_of _ _ (by intro ha; simpa [Armed] using ha)
+  | unconnected => exact keeps_panic _ _
+  | connecting => exact keeps_panic _ _
+  | pending t => exact keeps_panic _ _
+  | disconnected => exact keeps_panic _ _
+
+theorem sendConnless_keeps (env : Env) (c : Conn) (d : Bytes) : Keeps c (step env c (.sendConnless d)) := by
+  obtain ⟨st, snd⟩ := c
+  cases st with
+  | online t o =>
+    simp only [step, sendConnless]
+    by_cases hl : d.length > Tw.Gen.Conn.P6.connlessMax
+    · rw [if_pos hl]
+      exact keeps_ok_armed _ _ (by simp [Armed, after_active])
+    · rw [if_neg hl]
+      cases hq : emit [Packet.connless d] with
+      | error e => exact keeps_error _ (nohang_err (emit_nohang _) hq)
+      | ok ps => exact keeps_ok_armed _ _ (by simp [Armed, after_active])
+  | unconnected => exact keeps_panic _ _
+  | connecting => exact keeps_panic _ _
+  | pending t => exact keeps_panic _ _
+  | disconnected => exact keeps_panic _ _
+
+theorem resendConn_keeps (env : Env) (c0 : Conn) (t : Option Nat) (o : Online) (snd : Timeout)
+    (hst : Armed c0 → snd.isActive = true) : Keeps c0 (resendConn env t o snd) := by
+  obtain ⟨h1, h2⟩ := resend_nohang cfg env.now o snd
+  simp only [resendConn]
+  cases hr : o.resend cfg env.now snd with
+  | error e => exact keeps_error _ (nohang_err h1 hr)
+  | ok r =>
+    obtain ⟨o1, s1, fl⟩ := r
+    simp only
+    cases hq : emit (fl.map (ofFlushed t)) with
+    | error e => exact keeps_error _ (nohang_err (emit_nohang _) hq)
+    | ok ps => exact keeps_ok_of _ _ (by intro ha; simpa [Armed] using h2 o1 s1 fl hr (hst ha))
+
+theorem tick_keeps (env : Env) (c : Conn) : Keeps c (tick env c) := by
+  obtain ⟨st, snd⟩ := c
+  have rest : Keeps ⟨st, snd⟩ (if snd.triggered env.now = true then tickAction env ⟨st, .inactive⟩ else .ok (⟨st, snd⟩, {})) := by
+    split
+    · exact tickAction_keeps env _ _
+    · exact keeps_same _ _
+  cases st with
+  | online t o =>
+    simp only [tick]
+    split
+    · exact resendConn_keeps env ⟨.online t o, snd⟩ t o snd (by intro h; simpa [Armed] using h)
+    · exact rest
+  | unconnected => simpa [tick] using rest
+  | connecting => simpa [tick] using rest
+  | pending t => simpa [tick] using rest
+  | disconnected => simpa [tick] using rest
+
+theorem feedBody_keeps (env : Env) (c : Conn) (token : Option Nat) (p : Packet) : Keeps c (feedBody env c token p) := by
+  obtain ⟨st, snd⟩ := c
+  cases p with
+  | connless d => exact keeps_same _ _
+  | chunks ack tk rr n cs =>
+    have key : ∀ (t : Option Nat) (o : Online), (Armed ⟨st, snd⟩ → snd.isActive = true) →
+        Keeps ⟨st, snd⟩ (match o.receive cfg env.now snd rr cs with
+          | .error e => .error e
+          | .ok (o1, send1, fl, evs) =>
+            match emit (fl.map (ofFlushed t)) with
+            | .error e => .error e
+            | .ok ps => .ok (⟨.online t o1, send1⟩, { sent := ps, events := evs })) := by
+      intro t o hst
+      obtain ⟨h1, h2⟩ := receive_nohang cfg env.now o snd rr cs
+      cases hr : o.receive cfg env.now snd rr cs with
+      | error e => exact keeps_error _ (nohang_err h1 hr)
+      | ok r =>
+        obtain ⟨o1, s1, fl, evs⟩ := r
+        simp only
+        cases hq : emit (fl.map (ofFlushed t)) with
+        | error e => exact keeps_error _ (nohang_err (emit_nohang _) hq)
+        | ok ps => exact keeps_ok_of _ _ (by intro ha; simpa [Armed] using h2 o1 s1 fl evs hr (hst ha))
+    cases st with
+    | online t o => exact key t o (by intro h; simpa [Armed] using h)
+    | pending t => exact key t .new (by intro h; simpa [Armed] using h)
+    | unconnected => exact keeps_same _ _
+    | connecting => exact keeps_same _ _
+    | disconnected => exact keeps_same _ _
+  | control ack tk ctl =>
+    cases ctl with
+    | keepAlive => exact keeps_same _ _
+    | accept => exact keeps_same _ _
+    | close r => exact keeps_ok_armed _ _ (by simp [Armed])
+    | connect =>
+      cases st with
+      | unconnected =>
+        cases token with
+        | none => simp only [feedBody]; exact tickAction_keeps env _ _
+        | some t0 =>
+          simp only [feedBody]
+          split
+          · split
+            · exact keeps_panic _ _
+            · exact tickAction_keeps env _ _
+          · exact keeps_same _ _
+      | online t o => exact keeps_same _ _
+      | pending t => exact keeps_same _ _
+      | connecting => exact keeps_same _ _
+      | disconnected => exact keeps_same _ _
+    | connectAccept =>
+      cases st with
+      | connecting =>
+        simp only [feedBody]
+        cases he : sendControl (.online token .new) .accept with
+        | error e => exact keeps_error _ (nohang_err (sendControl_nohang _ _) he)
+        | ok ps => exact keeps_ok_of _ _ (by intro ha; simpa [Armed] using ha)
+      | online t o => exact keeps_same _ _
+      | pending t => exact keeps_same _ _
+      | unconnected => exact keeps_same _ _
+      | disconnected => exact keeps_same _ _
+
+theorem keeps_of_state_eq {c c1 : Conn} {r : Res} (h : Keeps c1 r) (h2 : Armed c → Armed c1) : Keeps c r :=
+  ⟨h.1, fun c' out he ha => h.2 c' out he (h2 ha)⟩
+
+theorem feed_keeps (env : Env) (c : Conn) (rd : Option Bool → Option Packet) : Keeps c (feed env c rd) := by
+  unfold feed
+  cases hr : rd c.hint with
+  | none => exact keeps_same _ _
+  | some p =>
+    simp only
+    cases hta : p.tokenAck? with
+    | none => exact feedBody_keeps env c none p
+    | some ta =>
+      obtain ⟨token, ack⟩ := ta
+      simp only
+      split
+      · exact keeps_same _ _
+      · obtain ⟨st, snd⟩ := c
+        cases st with
+        | online t o =>
+          simp only
+          cases he : o.feedAck ack with
+          | error e => exact keeps_error _ (nohang_err (feedAck_nohang _ _) he)
+          | ok o1 =>
+            exact keeps_of_state_eq (feedBody_keeps env ⟨.online t o1, snd⟩ token p) (by intro h; simpa [Armed] using h)
+        | unconnected => exact feedBody_keeps env _ token p
+        | connecting => exact feedBody_keeps env _ token p
+        | pending t => exact feedBody_keeps env _ token p
+        | disconnected => exact feedBody_keeps env _ token p
+
+theorem step_keeps (env : Env) (c : Conn) (op : Op) : Keeps c (step env c op) := by
+  cases op with
+  | connect => exact connect_keeps env c
+  | disconnect r => exact disconnect_keeps env c r
+  | flush => exact flush_keeps env c
+  | send d v => exact send_keeps env c d v
+  | sendConnless d => exact sendConnless_keeps env c d
+  | tick => exact tick_keeps env c
+  | feed rd => exact feed_keeps env c rd
+
+/-- over whole schedules: no hang, and the timer is armed in the state reached -/
+theorem run_keeps : ∀ (sched : List (Env × Op)) (c : Conn), Armed c →
+    NoHang (run c sched) ∧ ∀ c' outs, run c sched = .ok (c', outs) → Armed c' := by
+  intro sched
+  induction sched with
+  | nil =>
+    intro c ha
+    refine ⟨by simp [NoHang, run], ?_⟩
+    intro c' outs h; simp [run] at h; rw [← h.1]; exact ha
+  | cons eo rest ih =>
+    intro c ha
+    obtain ⟨env, op⟩ := eo
+    obtain ⟨h1, h2⟩ := step_keeps env c op
+    simp only [run]
+    cases hs : step env c op with
+    | error e =>
+      refine ⟨?_, by intro _ _ h; cases h⟩
+      have := nohang_err h1 hs
+      unfold NoHang; intro h; injection h with h; exact this h
+    | ok r =>
+      obtain ⟨c1, out⟩ := r
+      obtain ⟨h3, h4⟩ := ih c1 (h2 c1 out hs ha)
+      simp only
+      cases hr : run c1 rest with
+      | error e =>
+        refine ⟨?_, by intro _ _ h; cases h⟩
+        have := nohang_err h3 hr
+        unfold NoHang; intro h; injection h with h; exact this h
+      | ok r2 =>
+        obtain ⟨c2, outs⟩ := r2
+        refine ⟨by simp [NoHang], ?_⟩
+        intro c' outs' h
+        injection h with h; injection h with h _; rw [← h]
+        exact h4 c2 outs hr
+
+theorem min_active_ne (x : Nat) (t : Timeout) : Timeout.min (.active x) t ≠ .inactive := by
+  cases t with
+  | inactive => simp [Timeout.min, Timeout.le]
+  | active y =>
+    simp only [Timeout.min, Timeout.le]
+    by_cases h : x ≤ y <;> simp [h]
+
+/-- an armed timer means a finite deadline in every non-idle state -/
+theorem armed_needsTick {c : Conn} (h : Armed c) (hn : c.state ≠ .unconnected ∧ c.state ≠ .disconnected) :
+    c.needsTick ≠ .inactive := by
+  obtain ⟨st, snd⟩ := c
+  cases st with
+  | unconnected => exact absurd rfl hn.1
+  | disconnected => exact absurd rfl hn.2
+  | connecting =>
+    simp only [Armed] at h
+    cases snd with
+    | inactive => simp [Timeout.isActive] at h
+    | active x => exact min_active_ne x _
+  | pending t =>
+    simp only [Armed] at h
+    cases snd with
+    | inactive => simp [Timeout.isActive] at h
+    | active x => exact min_active_ne x _
+  | online t o =>
+    simp only [Armed] at h
+    cases snd with
+    | inactive => simp [Timeout.isActive] at h
+    | active x => exact min_active_ne x _
+
+end Tw.Conn6
